@@ -36,3 +36,8 @@ Definition gm_agree (c : gm_case) : bool :=
 Definition gm_prop (c : gm_case) : bool :=
   let '(g, t, back) := c in
   match back with Some [g'] => gmap_eqb g g' | _ => false end.
+
+(* glyph.glyph_name: (code points, implementation's name or None when it was hashed) *)
+From Verif Require Import Model.GlyphName.
+Definition gname_case := (list N * option text)%type.
+Definition gname_agree (c : gname_case) : bool := opt_eqb text_eqb (glyph_name (fst c)) (snd c).
